@@ -459,4 +459,54 @@ example :
     (w.objs.map fun o => (viewObj cx w.cells o).rows.map fun r => (r.strand, r.cells))
       = [[(-1, [⟨71, 32⟩, ⟨67, 31⟩, ⟨65, 30⟩]), (1, [⟨71, 20⟩, ⟨71, 21⟩, ⟨84, 22⟩])]] := by decide
 
+/-! ### multi.Set, and the row view of `alignment.Seq.Reverse` -/
+
+/-- **revcomp_spec (multi.Set).** `Set.RevComp` reverse-complements every row in place: letters
+    reversed and complemented (qualities travelling), strand negated, and — a set has no common
+    coordinate system — every row keeps its own coordinates; the rows stay well formed. -/
+theorem revcomp_spec_set (cx : Ctx) (h : Cells) (m : Multi) (hwf : RowsWF h m.rows) :
+    All2 (fun r r' =>
+        r'.letters (m.setRevComp cx h).1 = (r.letters h).reverse.map (compQL cx.comp)
+        ∧ r'.strand = -r.strand ∧ r'.start = r.start ∧ r'.«end» = r.«end» ∧ r'.q = r.q ∧ r'.name = r.name)
+      m.rows (m.setRevComp cx h).2.rows ∧
+    RowsWF (m.setRevComp cx h).1 (m.setRevComp cx h).2.rows := by
+  obtain ⟨rows', h2, hall, _, _⟩ := rowsFold_spec (fun h r => r.revComp cx h) (inPlace_revComp cx)
+    (fun bl r al r' => al = bl.reverse.map (compQL cx.comp) ∧ r'.strand = -r.strand ∧ r'.start = r.start ∧
+      r'.«end» = r.«end» ∧ r'.q = r.q ∧ r'.name = r.name)
+    (fun h r hv => ⟨(Lin.revComp_spec cx h r hv).1, rfl, rfl, rfl, rfl, rfl⟩) m.rows h [] hwf
+  have hm : m.setRevComp cx h = ((rowsFold (fun h r => r.revComp cx h) m.rows (h, [])).1,
+      { m with rows := (rowsFold (fun h r => r.revComp cx h) m.rows (h, [])).2 }) := rfl
+  rw [hm]
+  simp only [List.nil_append] at h2
+  simp only [h2]
+  exact ⟨hall.imp_mem fun a b _ hab => hab.1,
+         rowsWF_of_all2 (hall.imp_mem fun a b _ hab => ⟨hab.2.1, hab.2.2⟩) hwf⟩
+
+/-- **revcomp_involutive (multi.Set).** -/
+theorem revcomp_involutive_set (cx : Ctx) (h : Cells) (m : Multi) (hwf : RowsWF h m.rows)
+    (hinv : ∀ r ∈ m.rows, ∀ c ∈ r.letters h, cx.comp (cx.comp c.L) = c.L) :
+    let m1 := m.setRevComp cx h
+    let m2 := m1.2.setRevComp cx m1.1
+    All2 (fun r r2 => r2.letters m2.1 = r.letters h ∧ r2.strand = r.strand ∧ r2.start = r.start ∧
+        r2.«end» = r.«end» ∧ r2.q = r.q ∧ r2.name = r.name) m.rows m2.2.rows := by
+  intro m1 m2
+  obtain ⟨a1, wf1⟩ := revcomp_spec_set cx h m hwf
+  obtain ⟨a2, _⟩ := revcomp_spec_set cx m1.1 m1.2 wf1
+  refine (a1.trans a2).imp_mem fun r r2 hrm ⟨r1', hab, hbc⟩ => ?_
+  obtain ⟨l1, s1, b1, c1, q1, n1⟩ := hab
+  obtain ⟨l2, s2, b2, c2, q2, n2⟩ := hbc
+  refine ⟨?_, by omega, by rw [b2, b1], by rw [c2, c1], by rw [q2, q1], by rw [n2, n1]⟩
+  rw [l2, l1]; exact map_comp_twice cx.comp _ (hinv r hrm)
+
+/-- **alignment.Seq/QSeq.Reverse, row view**: every row reads reversed (qualities travelling);
+    the strand becomes `seq.None`; nothing is written to the heap (the column headers are swapped) -/
+theorem reverse_spec_alignment (h : Cells) (a : Aln) (r : Nat) :
+    a.reverse.rowLetters h r = (a.rowLetters h r).reverse ∧ a.reverse.strand = 0 ∧
+    a.reverse.subs = a.subs ∧ a.reverse.start = a.start ∧ a.reverse.«end» = a.«end» := by
+  have h1 : a.reverse.cols = a.cols.reverse := twoPtr_reverse a.cols
+  refine ⟨?_, rfl, rfl, rfl, ?_⟩
+  · have hq : a.reverse.q = a.q := rfl
+    simp only [Aln.rowLetters, h1, hq, List.map_reverse]
+  · simp only [Aln.«end», h1, List.length_reverse]; rfl
+
 end Biogo.Properties.C05
